@@ -1,7 +1,7 @@
 (** C10 - a torrent loads iff it is well-formed, and the loaded fields are faithful.
     Statements only. [spec_doc] (TorrentSpec.v) is the well-formedness specification, written over
     the abstract value with exact-key look-ups. *)
-From TB Require Import Base Decimal BencodeModel BencodeSpec Utf8 Generated GeneratedObligations LayoutModel LayoutSpec TorrentModel TorrentSpec TorrentProofs LayoutProofs.
+From TB Require Import Base Decimal BencodeModel BencodeSpec Utf8 Generated GeneratedObligations LayoutModel LayoutSpec TorrentModel TorrentSpec TorrentProofs LayoutProofs Utf8 Utf8Proofs.
 Local Open Scope N_scope.
 
 (** A byte string (of any length a machine can hold) loads iff it is the canonical encoding of a
@@ -54,8 +54,21 @@ Example C10_example :
    /\ t_files t = Some [{| f_length := 3; f_path := [[97]] |}; {| f_length := 0; f_path := [[99];[100]] |}].
 Proof. eexists. split; vm_compute; reflexivity. Qed.
 
+(** What "UTF-8" means in the clauses above: [utf8_valid] accepts exactly the encodings (RFC 3629,
+    shortest form) of sequences of Unicode scalar values - 0..0x10FFFF without the surrogates. *)
+Theorem C10_utf8_means_scalar_values bs : utf8_valid bs = true <-> exists cps, Forall scalar cps /\ bs = encode cps.
+Proof. exact (utf8_valid_iff bs). Qed.
+Example C10_utf8_examples :
+  utf8_valid [195; 169] = true /\ encode [233] = [195; 169] /\           (* e-acute *)
+  utf8_valid [192; 175] = false /\                                       (* overlong '/' *)
+  utf8_valid [237; 160; 128] = false /\                                  (* surrogate D800 *)
+  utf8_valid [244; 144; 128; 128] = false /\                             (* above 10FFFF *)
+  encode [128512] = [240; 159; 152; 128].                                (* U+1F600 *)
+Proof. vm_compute. repeat split; reflexivity. Qed.
+
 Print Assumptions C10_load_iff_wellformed.
 Print Assumptions C10_fields_faithful.
 Print Assumptions C10_hashes_are_blocks.
 Print Assumptions C10_exact_key.
 Print Assumptions C10_hash_count.
+Print Assumptions C10_utf8_means_scalar_values.
